@@ -34,6 +34,9 @@ type c01fragGen struct {
 	inTern int  // > 0 while generating inside a ternary: the parser rejects nested ternaries, blocks included
 	loop   int  // > 0 inside a loop body at statement level: break / continue may be generated
 	inLoop int  // > 0 anywhere inside a loop: strings must not grow multiplicatively (s += s doubles per round)
+	// hooks of the function-fragment generator (c01fun.go); nil here, and then no random draw is added
+	exprHook func(ty string, d int, noTern bool) *N
+	stmtHook func(d int) []*N
 }
 
 // ctl returns a break/continue statement in one of its shapes (guarded, bare, in an else branch).
@@ -103,6 +106,11 @@ func (g *c01fragGen) expr(ty string, d int, noTern bool) *N {
 	}
 	if ty == "nil" {
 		return n("nil")
+	}
+	if g.exprHook != nil {
+		if x := g.exprHook(ty, d, noTern); x != nil {
+			return x
+		}
 	}
 	vs := g.vars(ty, false)
 	leaf := func() *N {
@@ -290,6 +298,11 @@ func (g *c01fragGen) stmt(d int) []*N {
 	g.budget -= 2
 	deep := d < 3 && g.budget > 0
 	tys := []string{"int", "int", "int", "bool", "str"}
+	if g.stmtHook != nil {
+		if ss := g.stmtHook(d); ss != nil {
+			return ss
+		}
+	}
 	if g.loop > 0 && g.r.Chance(18) {
 		return []*N{g.ctl(d)}
 	}
